@@ -23,6 +23,7 @@ ASSUMPTIONS = {
     "A12": "A12: ndarray::Array1::linspace(a,b,n)[i] = a + i(b-a)/(n-1); from_shape_fn, mapv, collect preserve index order",
     "A13": "A13: cache hit/miss counters stay below 2^64-1",
     "A14": "A14: the real-function axioms of the [R] prelude (exp/ln/sqrt/atan textbook identities); consistency witnessed by the failing canary",
+    "A17": "A17: the derive macros are run outside rustc: the expansion functions of feos-derive are compiled from the working tree with only the #[proc_macro_derive] entry points removed; cfg attributes on variants are evaluated for a fixed feature set (all models, dft on, python off); payload types are abstracted to type parameters and `.into()` of a payload subset is the identity",
     "A16": "A16: the constructors of num-dual 0.11 written out in the virial unit (zero / from / from_re / one / derivative set exactly the fields their names say; field names re, eps, eps1, eps2, eps1eps2, v1, v2, v3)",
     "A15": "A15: collecting an iterator of (key, value) pairs into a std HashMap inserts them in iteration order, a later entry replacing an earlier one with an equal key; String equality is equality of the abstract identifier strings; derived Hash/Eq of the key type agree",
 }
@@ -74,7 +75,21 @@ def run_verus_unit(u, repo, bdir):
     for p in (gen, rep):
         if os.path.exists(p):
             os.remove(p)
-    tpl = os.path.join(ROOT, u["template"])
+    # `pre`: commands that generate inputs of the unit from the working tree (e.g. a macro expansion) into the build dir
+    for c in u.get("pre", []):
+        cmd = [w.replace("{repo}", repo).replace("{bdir}", bdir).replace("{root}", ROOT) for w in c.split()]
+        if not os.path.isabs(cmd[0]):
+            cmd[0] = os.path.join(ROOT, cmd[0])
+        try:
+            pp = subprocess.run(cmd, capture_output=True, text=True, timeout=600)
+        except subprocess.TimeoutExpired:
+            res["reason"] = "pre-command timed out: " + c
+            return res
+        if pp.returncode != 0:
+            res["reason"] = "generation (pre-command `" + c + "`): " + (pp.stderr.strip() or pp.stdout.strip())[-400:]
+            res["wall_s"] = time.time() - t0
+            return res
+    tpl = os.path.join(bdir, u["template"][len("@bdir/"):]) if u["template"].startswith("@bdir/") else os.path.join(ROOT, u["template"])
     if u.get("vars"):
         t = open(tpl).read()
         for k, v in u["vars"].items():
